@@ -7,6 +7,7 @@ is observed by the harness (fresh processes, both construction orders).
 import MdpaxV.Model.Config
 import Mathlib.Tactic.Linarith
 import Mathlib.Tactic.Tauto
+import Mathlib.Tactic.IntervalCases
 import Mathlib.Algebra.Order.Ring.Rat
 import Mathlib.Algebra.Order.Field.Basic
 set_option linter.unusedSectionVars false
@@ -166,5 +167,88 @@ theorem decimalPlaces_shows_threshold (e : Int) (m : Nat) (he : e ≤ 1) (hm : -
   rw [min_eq_left hm, max_eq_right (by omega)]; omega
 
 example : decimalPlaces 2 10 = 0 ∧ decimalPlaces (-6) 10 = 7 ∧ decimalPlaces (-30) 10 = 10 := by decide
+
+/-! ### verbosity (`utils.logging.verbosity_to_loguru_level`, `Solver.set_verbosity`) -/
+
+/-- an integer verbosity is accepted exactly on 0..4; anything that is not an integer is a `TypeError`, an integer outside
+    the range a `ValueError` -/
+theorem loguruLevel_ok_iff (isInt : Bool) (v : Int) :
+    (∃ n, loguruLevel isInt v = .ok n) ↔ (isInt = true ∧ 0 ≤ v ∧ v ≤ 4) := by
+  unfold loguruLevel
+  cases isInt
+  · simp
+  · by_cases h : v < 0 ∨ v > 4
+    · simp only [Bool.not_true, Bool.false_eq_true, if_false, if_pos h]
+      constructor
+      · rintro ⟨n, hn⟩; cases hn
+      · rintro ⟨_, h1, h2⟩; omega
+    · simp only [Bool.not_true, Bool.false_eq_true, if_false, if_neg h]
+      exact ⟨fun _ => by simp; omega, fun _ => ⟨_, rfl⟩⟩
+
+theorem loguruLevel_error_class (isInt : Bool) (v : Int) (e : CfgErr) (h : loguruLevel isInt v = .error e) :
+    (isInt = false ∧ e = .typeError) ∨ (isInt = true ∧ (v < 0 ∨ v > 4) ∧ e = .valueError) := by
+  unfold loguruLevel at h
+  cases isInt
+  · left; simp at h; exact ⟨rfl, h.symm⟩
+  · right
+    by_cases hv : v < 0 ∨ v > 4
+    · simp [hv] at h; exact ⟨rfl, hv, h.symm⟩
+    · simp [hv] at h
+
+/-- the five level names are pairwise different, so the mapping level ↦ name loses nothing -/
+theorem levelName_injective (v w : Int) (hv : 0 ≤ v ∧ v ≤ 4) (hw : 0 ≤ w ∧ w ≤ 4) (h : levelName v = levelName w) : v = w := by
+  obtain ⟨hv0, hv4⟩ := hv; obtain ⟨hw0, hw4⟩ := hw
+  interval_cases v <;> interval_cases w <;> first | rfl | (exfalso; revert h; decide)
+
+/-- names and integers denote the same levels: the name installed for level `v` is looked up (in any letter case) as `v` -/
+theorem verbosity_name_roundtrip (v : Int) (hv : 0 ≤ v ∧ v ≤ 4) :
+    verbosityOfName (levelName v) = .ok v ∧ verbosityOfName ((levelName v).map Char.toLower) = .ok v := by
+  obtain ⟨hv0, hv4⟩ := hv
+  interval_cases v <;> decide
+
+/-- `set_verbosity(name)` and `set_verbosity(v)` install the same level and store the same integer -/
+theorem setVerbosity_name_eq_int (v : Int) (hv : 0 ≤ v ∧ v ≤ 4) :
+    setVerbosity (.inl (levelName v)) = setVerbosity (.inr v) ∧ setVerbosity (.inr v) = .ok (v, levelName v) := by
+  obtain ⟨hv0, hv4⟩ := hv
+  interval_cases v <;> decide
+
+/-- whatever `set_verbosity` accepts ends with a stored integer in 0..4 and the name of that integer -/
+theorem setVerbosity_ok (l : List Char ⊕ Int) (v : Int) (n : List Char) (h : setVerbosity l = .ok (v, n)) :
+    0 ≤ v ∧ v ≤ 4 ∧ n = levelName v := by
+  have key : ∀ w : Int, loguruLevel true w = .ok n → 0 ≤ w ∧ w ≤ 4 ∧ n = levelName w := by
+    intro w hw
+    have := (loguruLevel_ok_iff true w).mp ⟨n, hw⟩
+    unfold loguruLevel at hw
+    have hnot : ¬ (w < 0 ∨ w > 4) := by omega
+    simp [hnot] at hw
+    exact ⟨this.2.1, this.2.2, hw.symm⟩
+  cases l with
+  | inr w =>
+    simp only [setVerbosity, bind, Except.bind] at h
+    cases hl : loguruLevel true w with
+    | error e => rw [hl] at h; cases h
+    | ok n' =>
+      rw [hl] at h
+      simp only [pure, Except.pure, Except.ok.injEq, Prod.mk.injEq] at h
+      obtain ⟨rfl, rfl⟩ := h
+      exact key w hl
+  | inl name =>
+    simp only [setVerbosity, bind, Except.bind] at h
+    cases hn : verbosityOfName name with
+    | error e => rw [hn] at h; cases h
+    | ok w =>
+      rw [hn] at h
+      simp only at h
+      cases hl : loguruLevel true w with
+      | error e => rw [hl] at h; cases h
+      | ok n' =>
+        rw [hl] at h
+        simp only [pure, Except.pure, Except.ok.injEq, Prod.mk.injEq] at h
+        obtain ⟨rfl, rfl⟩ := h
+        exact key w hl
+
+example : setVerbosity (.inl ['t','r','A','c','e']) = .ok (4, levelName 4) := by decide
+example : setVerbosity (.inl ['v','e','r','b','o','s','e']) = .error .valueError := by decide
+example : setVerbosity (.inr 5) = .error .valueError := by decide
 
 end MdpaxV.C20
